@@ -6,6 +6,7 @@ package interp
 import (
 	"math/big"
 	"encoding/json"
+	"regexp"
 	"fmt"
 	"go/token"
 	"io"
